@@ -304,4 +304,196 @@ theorem pdDefs_le {k : Nat} : ∀ (ds : List Definition), (∀ d ∈ ds, pdDefin
     omega
 
 
+/-! ### The walk without fragment spreads (the provable part of the polynomial bound) -/
+
+mutual
+/-- Fields and fragment spreads in a selection (syntactic count, no fragment expansion). -/
+def selCountSel : Selection → Nat
+  | .field _ _ _ _ (some s) => 1 + selCountSet s
+  | .field _ _ _ _ none => 1
+  | .spread _ _ _ => 1
+  | .inline _ _ _ s => selCountSet s
+def selCountSet : SelSet → Nat
+  | .mk sels _ _ => selCountSels sels
+def selCountSels : List Selection → Nat
+  | [] => 0
+  | s :: ss => selCountSel s + selCountSels ss
+end
+
+mutual
+/-- No fragment spread anywhere below. -/
+def noSpreadSel : Selection → Bool
+  | .field _ _ _ _ (some s) => noSpreadSet s
+  | .field _ _ _ _ none => true
+  | .spread _ _ _ => false
+  | .inline _ _ _ s => noSpreadSet s
+def noSpreadSet : SelSet → Bool
+  | .mk sels _ _ => noSpreadSels sels
+def noSpreadSels : List Selection → Bool
+  | [] => true
+  | s :: ss => noSpreadSel s && noSpreadSels ss
+end
+
+theorem walkSel_field (frags : String → Option SelSet) (f : Nat) (active : List String) (al : Option Name) (n : Name)
+    (as : List Argument) (ds : List Directive) (sel : Option SelSet) (w : Walk) :
+    walkSel frags (f + 1) active (.field al n as ds sel) w =
+      (let w := { w with visits := w.visits + 1 }
+       if w.err then some w
+       else
+         match sel with
+         | some s => walkSet frags f active s w
+         | none => some w) := rfl
+theorem walkSel_inline (frags : String → Option SelSet) (f : Nat) (active : List String) (e : Pos) (tc : Option Name)
+    (ds : List Directive) (s : SelSet) (w : Walk) :
+    walkSel frags (f + 1) active (.inline e tc ds s) w = if w.err then some w else walkSet frags f active s w := rfl
+theorem walkSet_zero (frags : String → Option SelSet) (active : List String) (s : SelSet) (w : Walk) :
+    walkSet frags 0 active s w = none := by cases s; rfl
+theorem walkSels_zero (frags : String → Option SelSet) (active : List String) (s : List Selection) (w : Walk) :
+    walkSels frags 0 active s w = none := rfl
+theorem walkSel_zero (frags : String → Option SelSet) (active : List String) (s : Selection) (w : Walk) :
+    walkSel frags 0 active s w = none := by cases s <;> rfl
+
+/-- Without fragment spreads the walk visits every selection exactly once (whenever its fuel suffices). -/
+theorem walk_noSpread (frags : String → Option SelSet) (f : Nat) :
+    (∀ active s v w', noSpreadSel s = true → walkSel frags f active s { visits := v, err := false } = some w' →
+        w' = { visits := v + selCountSel s, err := false }) ∧
+    (∀ active s v w', noSpreadSet s = true → walkSet frags f active s { visits := v, err := false } = some w' →
+        w' = { visits := v + selCountSet s, err := false }) ∧
+    (∀ active ss v w', noSpreadSels ss = true → walkSels frags f active ss { visits := v, err := false } = some w' →
+        w' = { visits := v + selCountSels ss, err := false }) := by
+  induction f with
+  | zero =>
+    refine ⟨?_, ?_, ?_⟩
+    · intro active s v w' _ h; rw [walkSel_zero] at h; cases h
+    · intro active s v w' _ h; rw [walkSet_zero] at h; cases h
+    · intro active s v w' _ h; rw [walkSels_zero] at h; cases h
+  | succ f ih =>
+    obtain ⟨ihS, ihSet, ihSels⟩ := ih
+    refine ⟨?_, ?_, ?_⟩
+    · intro active s v w' hn h
+      cases s with
+      | field al n as ds sel =>
+        rw [walkSel_field] at h
+        cases sel with
+        | none =>
+          simp only [Bool.false_eq_true, if_false, Option.some.injEq] at h
+          rw [← h]; rfl
+        | some ss =>
+          simp only [Bool.false_eq_true, if_false] at h
+          have := ihSet active ss (v + 1) w' (by simpa [noSpreadSel] using hn) h
+          rw [this]
+          simp only [selCountSel, Walk.mk.injEq, and_true]
+          omega
+      | spread e n ds => simp [noSpreadSel] at hn
+      | inline e tc ds ss =>
+        rw [walkSel_inline] at h
+        simp only [Bool.false_eq_true, if_false] at h
+        have := ihSet active ss v w' (by simpa [noSpreadSel] using hn) h
+        rw [this]; rfl
+    · intro active s v w' hn h
+      obtain ⟨sels, o, c⟩ := s
+      rw [walkSet_succ] at h
+      simp only [Bool.false_eq_true, if_false] at h
+      exact ihSels active sels v w' (by simpa [noSpreadSet] using hn) h
+    · intro active ss v w' hn h
+      cases ss with
+      | nil =>
+        rw [walkSels_nil] at h
+        simp only [Option.some.injEq] at h
+        rw [← h]; rfl
+      | cons s ss =>
+        rw [walkSels_cons] at h
+        simp only [noSpreadSels, Bool.and_eq_true] at hn
+        cases h1 : walkSel frags f active s { visits := v, err := false } with
+        | none => rw [h1] at h; cases h
+        | some w1 =>
+          rw [h1] at h
+          have e1 := ihS active s v w1 hn.1 h1
+          subst e1
+          have e2 := ihSels active ss _ w' hn.2 h
+          rw [e2]
+          simp only [selCountSels, Walk.mk.injEq, and_true]
+          omega
+
+mutual
+theorem selCountSel_le : ∀ s : Selection, selCountSel s ≤ s.stoks.length
+  | .field none n as ds none => by
+    rw [stoks_field_none]; simp [selCountSel, Name.stoks]
+  | .field none n as ds (some ss) => by
+    rw [stoks_field_none]
+    have := selCountSet_le ss
+    simp only [selCountSel, optSelStoks, List.length_append, Name.stoks, List.length_cons, List.length_nil]
+    omega
+  | .field (some a) n as ds none => by
+    rw [stoks_field_some]; simp [selCountSel, Name.stoks]
+  | .field (some a) n as ds (some ss) => by
+    rw [stoks_field_some]
+    have := selCountSet_le ss
+    simp only [selCountSel, optSelStoks, List.length_append, Name.stoks, List.length_cons, List.length_nil]
+    omega
+  | .spread e n ds => by rw [stoks_spread]; simp [selCountSel]
+  | .inline e none ds ss => by
+    rw [stoks_inline_none]
+    have := selCountSet_le ss
+    simp only [selCountSel, List.length_cons, List.length_append]
+    omega
+  | .inline e (some n) ds ss => by
+    rw [stoks_inline_some]
+    have := selCountSet_le ss
+    simp only [selCountSel, List.length_cons, List.length_append]
+    omega
+theorem selCountSet_le : ∀ s : SelSet, selCountSet s ≤ s.stoks.length
+  | .mk sels o c => by
+    rw [stoks_selSet]
+    have := selCountSels_le sels
+    simp only [selCountSet, List.length_cons, List.length_append]
+    omega
+theorem selCountSels_le : ∀ ss : List Selection, selCountSels ss ≤ (stoksSels ss).length
+  | [] => by simp [selCountSels]
+  | s :: ss => by
+    rw [stoksSels_cons]
+    have h1 := selCountSel_le s
+    have h2 := selCountSels_le ss
+    simp only [selCountSels, List.length_append]
+    omega
+end
+
+
+theorem opSel_stoks_le {d : Definition} {s : SelSet} (h : opSel? d = some s) : s.stoks.length ≤ d.stoks.length := by
+  cases d with
+  | frag p n tc dirs sel => simp [opSel?] at h
+  | op ot name vars dirs sel =>
+    simp only [opSel?, Option.some.injEq] at h
+    subst h
+    cases ot with
+    | none => rw [stoks_op_none]; exact Nat.le_refl _
+    | some t =>
+      rw [stoks_op_some]
+      simp only [List.length_cons, List.length_append]
+      omega
+
+theorem stoks_mem_le {d : Definition} : ∀ {defs : List Definition}, d ∈ defs → d.stoks.length ≤ (stoksDefs defs).length
+  | [], h => by cases h
+  | x :: xs, h => by
+    have e : stoksDefs (x :: xs) = x.stoks ++ stoksDefs xs := rfl
+    rw [e, List.length_append]
+    rcases List.mem_cons.mp h with rfl | h
+    · omega
+    · have := stoks_mem_le h
+      omega
+
+theorem soleOperation_mem {defs : List Definition} {s : SelSet} (h : soleOperation defs = some s) :
+    ∃ d ∈ defs, opSel? d = some s := by
+  unfold soleOperation at h
+  have hm : s ∈ defs.filterMap opSel? := by
+    cases hf : defs.filterMap opSel? with
+    | nil => rw [hf] at h; cases h
+    | cons a as =>
+      rw [hf] at h
+      cases as with
+      | nil => simp only [Option.some.injEq] at h; subst h; simp
+      | cons b bs => cases h
+  obtain ⟨d, hd, hs⟩ := List.mem_filterMap.mp hm
+  exact ⟨d, hd, hs⟩
+
 end ApiFu.C12
